@@ -75,6 +75,10 @@ func main() {
 		}
 		return
 	}
+	if *dump == "fieldwrites" {
+		dumpFieldWrites(P)
+		return
+	}
 	if *dump == "successguards" {
 		dumpSuccessGuards(P)
 		return
